@@ -281,15 +281,34 @@ theorem stmt_eq_is_set_equality (a b : List String) :
     ∃ r, modesEq (.names a) (.names b) = .ok r ∧ (r = true ↔ ∀ x, x ∈ a ↔ x ∈ b) :=
   modesEq_names a b
 
-/-- The full statement "`-` and `==` agree with set operations on the expanded modes" is false
-    of the code when an operand is the wildcard: `==` raises, and `x - *` yields a statement whose
-    `modes` is a bare `Name` (for Elimination even `INST`, which is no elimination mode) on which
-    `len` raises. -/
+/-- `a - b` agrees with the set difference of the EXPANDED modes, modulo the class default, for all
+    operands including wildcards (full statement, true since fix f9eda08; before, `x - *` stored a
+    bare `Name`, for Elimination `INST`).  `a` is a wildcard or a tuple of grammatical mode names,
+    `b` a wildcard or any tuple. -/
+theorem stmt_sub_is_difference_full (k : ModeKind) (a b : Modes)
+    (ha : a = .wild ∨ ∃ l, a = .names l) (hb : b = .wild ∨ ∃ l, b = .names l) (hva : a.valid k.wildcard = true) :
+    ∃ r, modesSub k a b = .ok (.names r) ∧
+      ((∃ x, x ∈ a.expand k.wildcard ∧ x ∉ b.expand k.wildcard) →
+        ∀ x, x ∈ r ↔ x ∈ a.expand k.wildcard ∧ x ∉ b.expand k.wildcard) ∧
+      ((¬ ∃ x, x ∈ a.expand k.wildcard ∧ x ∉ b.expand k.wildcard) → r = [k.subDefault]) := by
+  rcases hb with rfl | ⟨bl, rfl⟩
+  · refine ⟨[k.subDefault], modesSub_wild_rhs k a, ?_, fun _ => rfl⟩
+    rintro ⟨x, hx, hnx⟩
+    exact absurd (valid_expand_subset k.wildcard a hva ha x hx) hnx
+  · rcases ha with rfl | ⟨al, rfl⟩
+    · exact modesSub_wild_lhs k bl
+    · exact modesSub_names k al bl
+
+/-- in particular `x - *` is the class default as a 1-tuple, on which `len` works -/
+theorem stmt_sub_wildcard_rhs (k : ModeKind) (a : Modes) :
+    modesSub k a .wild = .ok (.names [k.subDefault]) ∧ Modes.len k (.names [k.subDefault]) = .ok 1 :=
+  ⟨modesSub_wild_rhs k a, rfl⟩
+
+/-- What remains false of the code with a wildcard operand: `==` raises (`set(self.modes)`). -/
 theorem stmt_wildcard_witness :
     modesEq .wild (.names ["FO"]) = .error .typeError ∧
-    modesSub eliminationKind (.names ["FO"]) .wild = .ok (.bare "INST") ∧
-    Modes.len eliminationKind (.bare "INST") = .error .typeError ∧
-    ("INST" ∉ Gen.eliminationWildcard) := by
+    modesSub eliminationKind (.names ["MM"]) .wild = .ok (.names ["FO"]) ∧
+    ("FO" ∈ Gen.eliminationWildcard) := by
   decide +kernel
 
 /-! ## ModelFeatures: deviations of the code from set semantics (concrete witnesses)
